@@ -130,7 +130,7 @@ def match_close(m, i):
 
 
 class Item:
-    __slots__ = ('kind', 'name', 'start', 'decl', 'body_open', 'end', 'attrs', 'header', 'trait', 'cfgs')
+    __slots__ = ('kind', 'name', 'start', 'decl', 'body_open', 'end', 'attrs', 'header', 'trait', 'trait_full', 'cfgs')
 
     def __repr__(self):
         return 'Item(%s %s %d..%d)' % (self.kind, self.name, self.start, self.end)
@@ -223,6 +223,7 @@ def items(text, m=None, lo=0, hi=None):
         it.kind = kind
         it.end = end
         it.trait = None
+        it.trait_full = None
         it.name = _name_of(kind, header, it)
         it.cfgs = [a for a in attrs if re.match(r'#\s*\[\s*cfg\b', a)]
         res.append(it)
@@ -285,6 +286,7 @@ def _name_of(kind, header, it):
                 break
         if split >= 0:
             it.trait = _type_ident(rest[:split])
+            it.trait_full = re.sub(r'\s+', '', rest[:split])
             return _type_ident(rest[split + 3:])
         return _type_ident(rest)
     if kind == 'macro_rules':
@@ -387,11 +389,22 @@ def stmt_end(m, i, hi):
                 return k + 1
             k += 1
         return hi
+    seen_arrow = False
     while k < hi:
         c = m[k]
         if c in OPEN:
             k = match_close(m, k) + 1
+            if seen_arrow:
+                # `pat => { block }` arm: ends after the block (and an optional comma)
+                j = _skip_ws(m, k, hi)
+                return j + 1 if j < hi and m[j] == ',' else k
             continue
+        if c == '=' and m[k:k + 2] == '=>':
+            seen_arrow = True
+            k += 2
+            continue
+        if c == ',' and seen_arrow:
+            return k + 1        # a match arm `pat => expr,`
         if c == ';':
             return k + 1
         if c == '}':
